@@ -75,11 +75,15 @@ def differs(script):
     return bool(bad)
 
 
-def corpus(sub="api"):
+def corpus(sub="api", pid=None):
+    """corpus scripts; the first comment line names the properties a replay belongs to, e.g. `# D2 (C12/C09): …`"""
     d = os.path.join(CORPUS, sub); out = []
     if os.path.isdir(d):
         for f in sorted(os.listdir(d)):
-            out.append((f, [l.strip() for l in open(os.path.join(d, f)) if l.strip() and not l.startswith("#")]))
+            raw = open(os.path.join(d, f)).read().split("\n")
+            props = set(re.findall(r"C\d\d", raw[0])) if raw and raw[0].startswith("#") else set()
+            if pid is not None and props and pid not in props: continue
+            out.append((f, [l.strip() for l in raw if l.strip() and not l.startswith("#")]))
     return out
 
 
@@ -137,9 +141,9 @@ PROFILES = {
     "C15": [("sinks", dict(coalesce_sends=True, sends_per_txn=(1, 5), deep_nest=0.4, scoped=0.3, nest=0.8, samples=0.5, weights=W(ssinkc=6, csink=4, ssink=2, hold=3)))],
     "C17": [("lazies", dict(lazies=0.9, samples=0.3, n_txn=(4, 14), weights=W(mapc=4, lift2=3, liftn=1, holdlazy=3, hold=3, csink=4, accum=2, cloop=1)))],
     "C18": [("router", dict(n_defs=(4, 10), drops=0.3, gcs=0.3, weights=W(router=5, ssink=4, map=3, merge=3, hold=1)))],
-    "C06": [("drops", dict(drops=0.8, gcs=0.5, n_defs=(5, 14), n_txn=(4, 12),
+    "C06": [("drops", dict(drops=0.8, gcs=0.5, memchecks=0.5, n_defs=(5, 14), n_txn=(4, 12),
                            weights=W(sloop=1.5, cloop=1.5, accum=2, collect=2, switchs=1.5, switchc=1, router=1, defer=1, lift2=2, hold=3, snapshot=3)))],
-    "C07": [("abandon", dict(leakcheck=True, drops=0.4, gcs=0.3, n_txn=(0, 6), unlisten=0.3, no_switchc_in_loop=True,
+    "C07": [("abandon", dict(leakcheck=True, drops=0.4, gcs=0.3, memchecks=0.3, n_txn=(0, 6), unlisten=0.3, no_switchc_in_loop=True,
                              weights=W(sloop=1.5, cloop=1.5, accum=2, collect=2, switchs=1.5, switchc=1, router=1, defer=1, split=0.5, lift2=2, hold=3, snapshot=3, mapc=2)))],
     "C09": [("reorder", dict(n_defs=(4, 12), samples=0.4, weights=W(defer=0.7, lift2=2, accum=1, switchs=0.5)))],
 }
@@ -184,6 +188,8 @@ def impl_predicates(pid, script, hl):
         if h.startswith("HANG"): return f"line {j}: the library hangs"
         if h.startswith("PANIC") and not (h.endswith("looped-twice") or h.endswith("sample-before-loop")):
             return f"line {j}: the library panics: {h}"
+    for j, h in enumerate(hl):
+        if h.startswith("mem=BAD"): return f"line {j}: collector contract violated on the real graph: {h}"
     if pid in ("C07",):
         for j, h in enumerate(hl):
             if h.startswith("leak=") and h != "leak=0": return f"line {j}: {h} nodes alive after everything was dropped and collected"
@@ -202,7 +208,7 @@ def impl_predicates(pid, script, hl):
 
 def run_api_prop(pid, tier, seed, extra_corpus=()):
     t0 = time.time()
-    corp = [(f, s) for f, s in corpus("api")]
+    corp = [(f, s) for f, s in corpus("api", pid)]
     scripts = [s for _, s in corp]
     gen, tags = gen_scripts(pid, tier, seed)
     scripts += gen
@@ -216,8 +222,11 @@ def run_api_prop(pid, tier, seed, extra_corpus=()):
     os.environ["API_SCRIPT_TIMEOUT_MS"] = "2000"
     seen_sigs = set()
     def add(kind, k, msg, pred):
-        s = shrink(scripts[k], pred)
-        sig = " ; ".join(s)
+        if k < len(corp):
+            s = scripts[k]; sig = "corpus/api/" + corp[k][0]       # a corpus replay is reported as it is
+        else:
+            s = shrink(scripts[k], pred)
+            sig = " ; ".join(s)
         if sig in seen_sigs: return
         seen_sigs.add(sig)
         r, b, _, _ = compare([s])
